@@ -162,6 +162,7 @@ def scenario_for(seed, index, tier):
     if v < 0.25:
         sc['net']['one_byte_reads'] = True
         sc['variant'] = 'one-byte-reads'
+        sc['sched']['max_steps'] = 4000000
     elif v < 0.75:
         sc['net']['segment'] = True
         sc['net']['short_read'] = True
